@@ -224,6 +224,20 @@ impl ReceiveChannelUnreliable {
     }
 }
 
+#[cfg(feature = "verif")]
+impl SendChannelUnreliable {
+    pub fn verif_set_sliced_message_id(&mut self, id: u64) {
+        self.sliced_message_id = id;
+    }
+}
+
+#[cfg(feature = "verif")]
+impl ReceiveChannelUnreliable {
+    pub fn verif_memory_usage(&self) -> usize {
+        self.memory_usage_bytes
+    }
+}
+
 #[cfg(test)]
 mod tests {
     use octets::OctetsMut;
